@@ -40,8 +40,8 @@ theorem date_toString_eq (x : Date) (h : x.valid = true) : x.toGo.ToString = .ok
   have hd := (daysInInt_bounds x.y x.m)
   have hd' := daysInInt_cast x.y x.m
   have e1 := fmtD0_pad4 x.y (by omega)
-  have e2 := fmtD0_pad2 x.m (by omega)
-  have e3 := fmtD0_pad2 x.d (by omega)
+  have e2 := fmtD0_pad2_cal x.m (by omega)
+  have e3 := fmtD0_pad2_cal x.d (by omega)
   cases hb : x.dashes <;>
     simp [GoCal.date.ToString, Date.toGo, Date.print, hb, e1, e2, e3, bind, Except.bind, pure, Except.pure]
 
